@@ -40,7 +40,9 @@ fn peer(i: u8) -> PeerId {
 /// address `a` of peer `p`: a=0 private, a=1 public (gets the public-address bonus)
 fn addr(p: u8, a: u8) -> Multiaddr {
     let ip = if a == 0 { format!("10.0.{p}.1") } else { format!("8.8.{p}.{}", a + 1) };
-    format!("/ip4/{ip}/tcp/30333").parse::<Multiaddr>().unwrap().with(Protocol::P2p(peer(p).into()))
+    // a == 2: the peer's WebSocket address (only offered when the node has two transports)
+    let tail = if a == 2 { "/ws" } else { "" };
+    format!("/ip4/{ip}/tcp/30333{tail}").parse::<Multiaddr>().unwrap().with(Protocol::P2p(peer(p).into()))
 }
 
 fn peer_of_addr(a: &Multiaddr) -> Option<u8> {
@@ -70,11 +72,11 @@ pub enum Act {
     AddKnown { p: u8, a: u8 },
     /// a protocol asks for a dial through its `TransportService`
     ProtoDial { p: u8 },
-    Opened { id: usize, a: usize, errors: bool },
+    Opened { id: usize, a: usize, errors: bool, #[serde(default)] t: u8 },
     /// the socket opens but `Transport::negotiate` then fails (the statement quantifies over negotiate failures;
     /// the TCP transport itself can only fail there if the opened socket has vanished)
-    OpenedNegotiateFails { id: usize, a: usize },
-    OpenFail { id: usize },
+    OpenedNegotiateFails { id: usize, a: usize, #[serde(default)] t: u8 },
+    OpenFail { id: usize, #[serde(default)] t: u8 },
     Established { id: usize },
     DialFail { id: usize },
     InboundPending { p: u8 },
@@ -114,6 +116,8 @@ pub struct MgrModel {
     pub known: BTreeSet<String>,
     /// name of the non-initial state the exploration starts from (see `root_script`); "" = a fresh node
     pub root: &'static str,
+    /// two transports (TCP + a second scripted one registered as WebSocket); each peer then has a third, `/ws`, address
+    pub ws: bool,
 }
 
 /// One step of a root script: an exact action, or the first / last enabled action of a kind (connection ids are
@@ -159,6 +163,15 @@ fn root_script(root: &str) -> Vec<RootStep> {
             Last("Established"),
             First("AcceptDone"),
         ],
+        // a dial to peer 1 BY PEER ID is in flight (state `Opening`) while peer 1 and peer 2 both have an inbound
+        // connection being negotiated: the two inbound connections race for the limit, and whichever loses or wins
+        // does so while the peer's own dial is still open
+        "p1-opening+two-inbound-pending" => vec![
+            Exact(Act::AddKnown { p: 1, a: 0 }),
+            Exact(Act::Dial { p: 1 }),
+            Exact(Act::InboundPending { p: 1 }),
+            Exact(Act::InboundPending { p: 2 }),
+        ],
         // peer 1 holds the two connections a peer may have
         "p1-two-connections" => vec![
             Exact(Act::InboundPending { p: 1 }),
@@ -178,7 +191,10 @@ pub struct Sys {
     mon_seen: usize,
     mon_exited: bool,
     attempts: BTreeMap<usize, Attempt>,
-    open_out: BTreeMap<usize, Vec<Multiaddr>>,
+    /// outstanding `open` calls per (transport, connection id): a dial by peer id uses ONE id on every transport
+    open_out: BTreeMap<(u8, usize), Vec<Multiaddr>>,
+    /// transport a single-transport stage of the attempt runs on (dial / opened / negotiating)
+    tr_of: BTreeMap<usize, u8>,
     opened_wait: BTreeMap<usize, Multiaddr>,
     nego_out: BTreeMap<usize, Multiaddr>,
     dial_out: BTreeMap<usize, Multiaddr>,
@@ -217,6 +233,17 @@ impl MgrModel {
         (b, handle)
     }
 
+    fn scr(sys: &Sys, t: u8) -> &crate::env::transport::ScriptHandle {
+        match (t, &sys.node.script_ws) {
+            (1, Some(ws)) => ws,
+            _ => &sys.node.script,
+        }
+    }
+
+    fn n_addrs(&self) -> u8 {
+        if self.ws { 3 } else { 2 }
+    }
+
     fn v(&self, sys: &mut Sys, sig: &str, what: String) {
         sys.violations.push(Viol::new(sig, what));
     }
@@ -234,10 +261,22 @@ impl MgrModel {
         if !ok {
             self.v(sys, "c05/livelock", "manager/tasks did not reach quiescence within the step cap".into());
         }
-        let calls = sys.node.script.take_calls();
-        for c in calls {
+        let mut calls: Vec<(u64, u8, Call)> = sys.node.script.take_calls_seq().into_iter().map(|(n, c)| (n, 0u8, c)).collect();
+        if let Some(ws) = &sys.node.script_ws {
+            calls.extend(ws.take_calls_seq().into_iter().map(|(n, c)| (n, 1u8, c)));
+        }
+        // the order in which the manager made them, across both transports
+        calls.sort_by_key(|(n, _, _)| *n);
+        for (_, t, c) in calls {
             match c {
                 Call::Open { id, addresses } => {
+                    // each transport is handed the addresses it can dial, and only those
+                    for a in &addresses {
+                        let is_ws = a.iter().any(|p| matches!(p, Protocol::Ws(_) | Protocol::Wss(_)));
+                        if is_ws != (t == 1) {
+                            self.v(sys, "c10/address-handed-to-wrong-transport", format!("open({id}) on transport {t} with {a}"));
+                        }
+                    }
                     // C10(c): non-increasing score order, bounded by free outbound capacity
                     let p = addresses.first().and_then(peer_of_addr).unwrap_or(255);
                     let scores: Vec<Option<i32>> = addresses.iter().map(|a| Self::score_of(pre, p, a)).collect();
@@ -270,17 +309,27 @@ impl MgrModel {
                     // that action indices and the canonical state do not depend on it
                     let mut sorted = addresses.clone();
                     sorted.sort_by_key(|a| a.to_string());
-                    sys.attempts.insert(id, Attempt { peer: p, addrs: sorted.clone(), outcome: None, last_call: "open", superseded_check: false });
-                    sys.open_out.insert(id, sorted);
+                    match sys.attempts.get_mut(&id) {
+                        // the same attempt on the other transport
+                        Some(at) if at.outcome.is_none() && at.last_call == "open" && at.peer == p => at.addrs.extend(sorted.iter().cloned()),
+                        _ => {
+                            sys.attempts.insert(id, Attempt { peer: p, addrs: sorted.clone(), outcome: None, last_call: "open", superseded_check: false });
+                        }
+                    }
+                    sys.open_out.insert((t, id), sorted);
                 }
                 Call::Dial { id, address } => {
                     let p = peer_of_addr(&address).unwrap_or(255);
                     sys.attempts.insert(id, Attempt { peer: p, addrs: vec![address.clone()], outcome: None, last_call: "dial", superseded_check: false });
                     sys.dial_out.insert(id, address);
+                    sys.tr_of.insert(id, t);
                 }
                 Call::Negotiate { id } => match sys.opened_wait.remove(&id) {
                     Some(a) => {
-                        let failed = sys.node.script.0.lock().fail_negotiate.contains(&id);
+                        let failed = Self::scr(sys, t).0.lock().fail_negotiate.contains(&id);
+                        if sys.tr_of.get(&id) != Some(&t) {
+                            self.v(sys, "c05/negotiate-on-wrong-transport", format!("negotiate({id}) called on transport {t}, the connection was opened by transport {:?}", sys.tr_of.get(&id)));
+                        }
                         if !failed {
                             sys.nego_out.insert(id, a);
                         }
@@ -291,7 +340,10 @@ impl MgrModel {
                     None => self.v(sys, "c05/negotiate-unknown-connection", format!("negotiate({id}) for a connection that was not opened")),
                 },
                 Call::Cancel { id } => {
-                    if sys.open_out.remove(&id).is_some() {
+                    // with two transports a cancel also ends the losing transport's part of an attempt that goes on
+                    // elsewhere (the other transport still opening, or its socket opened and being negotiated)
+                    let goes_on = |sys: &Sys| sys.open_out.keys().any(|(_, i)| *i == id) || sys.opened_wait.contains_key(&id) || sys.nego_out.contains_key(&id);
+                    if sys.open_out.remove(&(t, id)).is_some() && !goes_on(sys) {
                         if let Some(at) = sys.attempts.get_mut(&id) {
                             at.last_call = "cancel";
                             if at.outcome.is_none() {
@@ -320,6 +372,7 @@ impl MgrModel {
                 }
                 Call::Accept { id } => match sys.est_wait.remove(&id) {
                     Some((p, ep)) => {
+                        sys.tr_of.insert(id, t);
                         let inbound = ep.is_listener();
                         sys.accepted.insert(id, (p, inbound));
                         sys.accept_wait.insert(id, (p, ep));
@@ -477,9 +530,9 @@ impl MgrModel {
         }
 
         // silence: every unsettled attempt must still be somewhere in flight
-        let in_flight: BTreeSet<usize> = sys
-            .open_out
-            .keys()
+        let open_ids: Vec<usize> = sys.open_out.keys().map(|(_, id)| *id).collect();
+        let in_flight: BTreeSet<usize> = open_ids
+            .iter()
             .chain(sys.opened_wait.keys())
             .chain(sys.nego_out.keys())
             .chain(sys.dial_out.keys())
@@ -562,6 +615,14 @@ impl MgrModel {
         // "dial successes re-score exactly the address used": the address of an established outbound connection must
         // carry the success score afterwards, whatever it carried before and whatever happens to the connection next
         // (accepted, or rolled back because of a limit)
+        // ... and failures: an address in the book whose dial has just been reported failed by the transport carries the
+        // failure score afterwards (at once: what happens to the rest of the attempt later must not matter)
+        for (addr, expect) in allowed {
+            if *expect == Some(CONNECTION_FAILURE) && a.contains_key(addr) && b.get(addr).is_some_and(|s| *s != CONNECTION_FAILURE) {
+                let now = b.get(addr).copied();
+                self.v(sys, "c10/failure-not-rescored", format!("{what}: the dial of {addr} failed but the address has score {now:?} afterwards (before: {:?})", a.get(addr)));
+            }
+        }
         for (addr, expect) in allowed {
             if *expect == Some(CONNECTION_ESTABLISHED) && b.get(addr) != Some(&CONNECTION_ESTABLISHED) {
                 let now = b.get(addr).copied();
@@ -584,14 +645,14 @@ impl Model for MgrModel {
     }
 
     fn config(&self) -> Value {
-        json!({"max_in": self.max_in, "max_out": self.max_out, "filter": self.filter, "root": self.root})
+        json!({"max_in": self.max_in, "max_out": self.max_out, "filter": self.filter, "root": self.root, "ws": self.ws})
     }
 
     fn init(&self) -> Sys {
         let rt = std::sync::Arc::new(driver::runtime(7));
         let _g = rt.enter();
         let (b, mon) = self.builder();
-        let mut node = Node::new(b, vec![]).expect("node");
+        let mut node = Node::with_transports(b, vec![], self.ws).expect("node");
         node.settle();
         let snapshot = node.litep2p.verif_snapshot();
         let mut sys = Sys {
@@ -601,6 +662,7 @@ impl Model for MgrModel {
             mon_exited: false,
             attempts: BTreeMap::new(),
             open_out: BTreeMap::new(),
+            tr_of: BTreeMap::new(),
             opened_wait: BTreeMap::new(),
             nego_out: BTreeMap::new(),
             dial_out: BTreeMap::new(),
@@ -640,15 +702,15 @@ impl Model for MgrModel {
         for id in sys.accept_wait.keys() {
             v.push(Act::AcceptDone { id: *id });
         }
-        for (id, addrs) in &sys.open_out {
+        for ((t, id), addrs) in &sys.open_out {
             for a in 0..addrs.len() {
-                v.push(Act::Opened { id: *id, a, errors: false });
+                v.push(Act::Opened { id: *id, a, errors: false, t: *t });
                 if addrs.len() > 1 {
-                    v.push(Act::Opened { id: *id, a, errors: true });
+                    v.push(Act::Opened { id: *id, a, errors: true, t: *t });
                 }
             }
-            v.push(Act::OpenFail { id: *id });
-            v.push(Act::OpenedNegotiateFails { id: *id, a: 0 });
+            v.push(Act::OpenFail { id: *id, t: *t });
+            v.push(Act::OpenedNegotiateFails { id: *id, a: 0, t: *t });
         }
         for id in sys.nego_out.keys() {
             v.push(Act::Established { id: *id });
@@ -669,14 +731,14 @@ impl Model for MgrModel {
         for p in 1..=N_PEERS {
             if total_attempts < 4 {
                 v.push(Act::Dial { p });
-                for a in 0..2 {
+                for a in 0..self.n_addrs() {
                     v.push(Act::DialAddr { p, a });
                 }
                 if !sys.mon_exited {
                     v.push(Act::ProtoDial { p });
                 }
             }
-            for a in 0..2 {
+            for a in 0..self.n_addrs() {
                 if Self::score_of(&sys.snapshot, p, &addr(p, a)).is_none() {
                     v.push(Act::AddKnown { p, a });
                 }
@@ -744,8 +806,9 @@ impl Model for MgrModel {
             Act::ProtoDial { p } => {
                 let _ = sys.mon.cmd.send(MonitorCmd::Dial(peer(*p)));
             }
-            Act::Opened { id, a, errors } => {
-                let addrs = sys.open_out.remove(id).expect("enabled");
+            Act::Opened { id, a, errors, t } => {
+                let addrs = sys.open_out.remove(&(*t, *id)).expect("enabled");
+                sys.tr_of.insert(*id, *t);
                 let address = addrs[*a].clone();
                 let errs: Vec<(Multiaddr, DialError)> = if *errors {
                     addrs.iter().filter(|x| **x != address).map(|x| (x.clone(), DialError::Timeout)).collect()
@@ -757,36 +820,39 @@ impl Model for MgrModel {
                     allowed.push((x.clone(), Some(CONNECTION_FAILURE)));
                 }
                 sys.opened_wait.insert(*id, address.clone());
-                sys.node.script.emit(TransportEvent::ConnectionOpened { connection_id: ConnectionId::from(*id), address, errors: errs });
+                Self::scr(sys, *t).emit(TransportEvent::ConnectionOpened { connection_id: ConnectionId::from(*id), address, errors: errs });
             }
-            Act::OpenedNegotiateFails { id, a } => {
-                let addrs = sys.open_out.remove(id).expect("enabled");
+            Act::OpenedNegotiateFails { id, a, t } => {
+                let addrs = sys.open_out.remove(&(*t, *id)).expect("enabled");
+                sys.tr_of.insert(*id, *t);
                 let address = addrs[*a].clone();
                 allowed.push((address.clone(), Some(CONNECTION_ESTABLISHED)));
                 sys.opened_wait.insert(*id, address.clone());
-                sys.node.script.0.lock().fail_negotiate.push(*id);
-                sys.node.script.emit(TransportEvent::ConnectionOpened { connection_id: ConnectionId::from(*id), address, errors: vec![] });
+                Self::scr(sys, *t).0.lock().fail_negotiate.push(*id);
+                Self::scr(sys, *t).emit(TransportEvent::ConnectionOpened { connection_id: ConnectionId::from(*id), address, errors: vec![] });
             }
-            Act::OpenFail { id } => {
-                let addrs = sys.open_out.remove(id).expect("enabled");
+            Act::OpenFail { id, t } => {
+                let addrs = sys.open_out.remove(&(*t, *id)).expect("enabled");
                 let errs: Vec<(Multiaddr, DialError)> = addrs.iter().map(|x| (x.clone(), DialError::Timeout)).collect();
                 for x in &addrs {
                     allowed.push((x.clone(), Some(CONNECTION_FAILURE)));
                 }
-                sys.node.script.emit(TransportEvent::OpenFailure { connection_id: ConnectionId::from(*id), errors: errs });
+                Self::scr(sys, *t).emit(TransportEvent::OpenFailure { connection_id: ConnectionId::from(*id), errors: errs });
             }
             Act::Established { id } => {
                 let address = sys.nego_out.remove(id).or_else(|| sys.dial_out.remove(id)).expect("enabled");
+                let t = sys.tr_of.get(id).copied().unwrap_or(0);
                 let p = peer_of_addr(&address).unwrap();
                 let ep = Endpoint::Dialer { address: address.clone(), connection_id: ConnectionId::from(*id) };
                 allowed.push((address, Some(CONNECTION_ESTABLISHED)));
                 sys.est_wait.insert(*id, (p, ep.clone()));
-                sys.node.script.emit(TransportEvent::ConnectionEstablished { peer: peer(p), endpoint: ep });
+                Self::scr(sys, t).emit(TransportEvent::ConnectionEstablished { peer: peer(p), endpoint: ep });
             }
             Act::DialFail { id } => {
                 let address = sys.dial_out.remove(id).expect("enabled");
                 allowed.push((address.clone(), Some(CONNECTION_FAILURE)));
-                sys.node.script.emit(TransportEvent::DialFailure {
+                let t = sys.tr_of.get(id).copied().unwrap_or(0);
+                Self::scr(sys, t).emit(TransportEvent::DialFailure {
                     connection_id: ConnectionId::from(*id),
                     address,
                     error: DialError::NegotiationError(NegotiationError::Timeout),
@@ -810,9 +876,10 @@ impl Model for MgrModel {
             Act::AcceptDone { id } => {
                 let (p, ep) = sys.accept_wait.remove(id).expect("enabled");
                 let inbound = ep.is_listener();
-                sys.node.script.decide_accept(*id, AcceptDecision::Proceed { peer: peer(p), endpoint: ep });
+                let t = sys.tr_of.get(id).copied().unwrap_or(0);
+                Self::scr(sys, t).decide_accept(*id, AcceptDecision::Proceed { peer: peer(p), endpoint: ep });
                 sys.node.settle();
-                if sys.node.script.has_connection(*id) {
+                if Self::scr(sys, t).has_connection(*id) {
                     sys.kept.insert(*id, (p, inbound));
                 } else {
                     // the accept future failed (a protocol is gone): the manager rolls the connection back
@@ -839,7 +906,8 @@ impl Model for MgrModel {
             Act::Close { id } => {
                 let (p, _) = sys.kept.remove(id).expect("enabled");
                 sys.accepted.remove(id);
-                if let Some((pid, mut pset)) = sys.node.script.take_connection(*id) {
+                let t = sys.tr_of.get(id).copied().unwrap_or(0);
+                if let Some((pid, mut pset)) = Self::scr(sys, t).take_connection(*id) {
                     let cid = ConnectionId::from(*id);
                     // the connection task's last act
                     let done = poll_now(async { pset.report_connection_closed(pid, cid).await });
@@ -880,7 +948,7 @@ impl Model for MgrModel {
         ids.extend(s.opening_errors.iter().map(|c| c.verif_raw()));
         ids.extend(s.counted_incoming.iter().map(|c| c.verif_raw()));
         ids.extend(s.counted_outgoing.iter().map(|c| c.verif_raw()));
-        for m in [&sys.open_out.keys().copied().collect::<Vec<_>>(), &sys.opened_wait.keys().copied().collect(), &sys.nego_out.keys().copied().collect(), &sys.dial_out.keys().copied().collect(), &sys.inbound_pending.keys().copied().collect(), &sys.inbound_nego.keys().copied().collect(), &sys.est_wait.keys().copied().collect(), &sys.accept_wait.keys().copied().collect(), &sys.kept.keys().copied().collect(), &sys.accepted.keys().copied().collect()] {
+        for m in [&sys.open_out.keys().map(|(_, id)| *id).collect::<Vec<_>>(), &sys.opened_wait.keys().copied().collect(), &sys.nego_out.keys().copied().collect(), &sys.dial_out.keys().copied().collect(), &sys.inbound_pending.keys().copied().collect(), &sys.inbound_nego.keys().copied().collect(), &sys.est_wait.keys().copied().collect(), &sys.accept_wait.keys().copied().collect(), &sys.kept.keys().copied().collect(), &sys.accepted.keys().copied().collect()] {
             ids.extend(m.iter().copied());
         }
         ids.extend(sys.attempts.iter().filter(|(_, a)| a.outcome.is_none()).map(|(id, _)| *id));
@@ -908,7 +976,7 @@ impl Model for MgrModel {
             s.counted_incoming.iter().map(|c| r(c.verif_raw())).collect::<Vec<_>>(),
             s.counted_outgoing.iter().map(|c| r(c.verif_raw())).collect::<Vec<_>>(),
             s.pending_accepts,
-            sys.open_out.iter().map(|(id, a)| (r(*id), a.iter().map(|x| x.to_string()).collect::<Vec<_>>())).collect::<Vec<_>>(),
+            sys.open_out.iter().map(|((t, id), a)| (*t, r(*id), a.iter().map(|x| x.to_string()).collect::<Vec<_>>())).collect::<Vec<_>>(),
             rk(&sys.opened_wait),
             rk(&sys.nego_out),
             rk(&sys.dial_out),
@@ -954,7 +1022,10 @@ impl Model for MgrModel {
                 let used_out = sys.accepted.values().filter(|(_, i)| !*i).count();
                 let r = poll_now(sys.node.litep2p.dial(&peer(p)));
                 sys.node.settle();
-                let calls = sys.node.script.take_calls();
+                let mut calls = sys.node.script.take_calls();
+                if let Some(ws) = &sys.node.script_ws {
+                    calls.extend(ws.take_calls());
+                }
                 let reached = calls.iter().any(|c| matches!(c, Call::Open { .. } | Call::Dial { .. }));
                 match r {
                     Some(Ok(())) => {
@@ -1039,12 +1110,33 @@ pub fn run_filtered(ctx: &mut Ctx, filter: &'static str) {
             .filter(|k| k.property.eq_ignore_ascii_case(filter))
             .map(|k| k.signature)
             .collect();
-        let roots: &[&'static str] = if filter == "c06" { &["", "p1-inbound-and-dial-in-flight+p2-outbound", "p1-two-connections"] } else { &[""] };
+        // the last root only differs from what the initial state reaches when an inbound limit can bite after a first
+        // inbound connection was let in
+        let racing = max_in.is_some_and(|m| m >= 1);
+        let roots: &[&'static str] = match filter {
+            "c06" if racing => &["", "p1-inbound-and-dial-in-flight+p2-outbound", "p1-two-connections", "p1-opening+two-inbound-pending"],
+            "c06" => &["", "p1-inbound-and-dial-in-flight+p2-outbound", "p1-two-connections"],
+            "c05" if racing => &["", "p1-opening+two-inbound-pending"],
+            _ => &[""],
+        };
         for root in roots {
-            let m = MgrModel { max_in, max_out, depth, filter, known: known.clone(), root };
+            let m = MgrModel { max_in, max_out, depth, filter, known: known.clone(), root, ws: false };
             let out = ex.run(&m);
             let label = if root.is_empty() { format!("manager[max_in={max_in:?},max_out={max_out:?}]") } else { format!("manager[max_in={max_in:?},max_out={max_out:?},root={root}]") };
             e1::absorb(ctx, &label, out);
+        }
+    }
+    // two transports (TCP + WebSocket): one dial by peer id runs on both, under one connection id
+    if filter == "c05" || filter == "c10" {
+        let known: BTreeSet<String> = crate::report::load_known_findings()
+            .into_iter()
+            .filter(|k| k.property.eq_ignore_ascii_case(filter))
+            .map(|k| k.signature)
+            .collect();
+        for (max_in, max_out) in [(None, None), (Some(1), Some(1))] {
+            let m = MgrModel { max_in, max_out, depth, filter, known: known.clone(), root: "", ws: true };
+            let out = ex.run(&m);
+            e1::absorb(ctx, &format!("manager[two-transports,max_in={max_in:?},max_out={max_out:?}]"), out);
         }
     }
     ctx.cov("depth_bound", depth as u64);
@@ -1072,9 +1164,11 @@ pub fn replay(case: &Value) -> Result<String, String> {
         depth: 99,
         filter,
         known: crate::report::load_known_findings().into_iter().map(|k| k.signature).collect(),
+        ws: cfg["ws"].as_bool().unwrap_or(false),
         root: match cfg["root"].as_str() {
             Some("p1-inbound-and-dial-in-flight+p2-outbound") => "p1-inbound-and-dial-in-flight+p2-outbound",
             Some("p1-two-connections") => "p1-two-connections",
+            Some("p1-opening+two-inbound-pending") => "p1-opening+two-inbound-pending",
             _ => "",
         },
     };
